@@ -191,6 +191,15 @@ def run_case(case, R):
                 culprit = "annotation"
             R.fail("raises", culprit, "generate_stub raised %r" % (exc,))
             return
+        # generating again (also through another input form) must give the same text: no hidden state
+        try:
+            with contextlib.redirect_stdout(io.StringIO()):
+                again = cc.generate_stub(target, **kwargs)
+                other = cc.generate_stub(schema, class_name=cname) if how != "schema" else cc.generate_stub(cfg, class_name=cname)
+            R.check(again == stub, "pure", "second-call-differs", lambda: "a second generate_stub call returns a different stub:\n%s\n--- vs ---\n%s" % (stub[:600], again[:600]))
+            R.check(other == stub, "pure", "input-form-differs", lambda: "the stub depends on the input form (Schema / Config / ConfigType):\n%s\n--- vs ---\n%s" % (stub[:600], other[:600]))
+        except Exception as exc:
+            R.fail("pure", "second-call-raises", "a second generate_stub call raised %r" % (exc,))
         R.check(buf.getvalue() == "", "pure", "stdout", lambda: "generate_stub wrote to standard output: %r" % buf.getvalue()[:200])
         R.check(schema_snapshot(cc, schema) == snap_schema, "pure", "schema", "generate_stub changed the schema")
         R.check(worlds.snapshot(cfg, cc, with_ids=True) == snap_cfg, "pure", "config", "generate_stub changed the configuration")
